@@ -223,6 +223,12 @@ def c17_quick_models():
         m = copy.deepcopy(b)
         m[k] = v
         out.append(("hdr:%s" % k, m))
+    # F9b over-long function-pointer fields laid out one argument per line
+    for label, m0 in (("baseline", b), ("args4", single([meth("alpha_call", "mut", ["u64", "s3", "slice", "ptr_const"], "u64"), meth("alpha_get", "ref", ["u64"], "u64"), meth("alpha_take", "own", ["cb", "slice"], "u64")])),
+                      ("group", model(tr[:2], [{"name": "Bundle", "mandatory": ["Alpha"], "optional": ["Beta"]}], [grp("Bundle"), obj("Alpha")]))):
+        m = copy.deepcopy(m0)
+        m["fnptr_layout"] = "vertical"
+        out.append(("hdr:fnptr_vertical:%s" % label, m))
     return out
 
 
